@@ -175,6 +175,9 @@ type loopB struct {
 	innerExit bool
 	// nested is set when another loop's header lies inside this loop.
 	nested bool
+	// classic is set for `for i := 0; i < len(c); i++` loops (see classicIndexLoop): c is re-read on
+	// every iteration, so users must check that it is not written inside the function.
+	classic bool
 }
 
 func findLoops(fn *ssa.Function) []*loopB {
@@ -258,9 +261,88 @@ func findLoops(fn *ssa.Function) []*loopB {
 				}
 			}
 		}
+		if l.rangeOver == nil {
+			l.classicIndexLoop()
+		}
 	}
 	sort.Slice(order, func(i, j int) bool { return order[i].header.Index < order[j].header.Index })
 	return order
+}
+
+// classicIndexLoop recognises `for i := 0; i < len(c); i++ { … }` (also written len(c) > i): the
+// header ends in that test with the true edge entering the loop and the false edge leaving it, the
+// index phi starts at the constant 0 and every value it receives from inside the loop is itself+1
+// (through any merge of such values), so that each index 0..len(c)-1 is visited exactly once as
+// long as the loop is left only through the header (innerExit, checked by the users) and c keeps
+// its length (users check that c is not written). Sets rangeOver = c and key = the index phi.
+func (l *loopB) classicIndexLoop() {
+	if len(l.header.Instrs) == 0 || len(l.header.Succs) != 2 {
+		return
+	}
+	iff, ok := l.header.Instrs[len(l.header.Instrs)-1].(*ssa.If)
+	if !ok || !l.blocks[l.header.Succs[0]] || l.blocks[l.header.Succs[1]] {
+		return
+	}
+	bo, ok := iff.Cond.(*ssa.BinOp)
+	if !ok {
+		return
+	}
+	var idx, lenv ssa.Value
+	switch bo.Op {
+	case token.LSS:
+		idx, lenv = bo.X, bo.Y
+	case token.GTR:
+		idx, lenv = bo.Y, bo.X
+	default:
+		return
+	}
+	ph, ok := idx.(*ssa.Phi)
+	lc := builtinCall(lenv, "len")
+	if !ok || ph.Block() != l.header || lc == nil {
+		return
+	}
+	var isInc func(v ssa.Value, d int) bool
+	isInc = func(v ssa.Value, d int) bool {
+		if d > 8 {
+			return false
+		}
+		switch x := v.(type) {
+		case *ssa.BinOp:
+			if x.Op != token.ADD {
+				return false
+			}
+			if c, isC := constInt(x.Y); isC && c == 1 && x.X == ssa.Value(ph) {
+				return true
+			}
+			if c, isC := constInt(x.X); isC && c == 1 && x.Y == ssa.Value(ph) {
+				return true
+			}
+		case *ssa.Phi:
+			if x == ph || x.Block() == l.header || len(x.Edges) == 0 {
+				return false
+			}
+			for _, e := range x.Edges {
+				if !isInc(e, d+1) {
+					return false
+				}
+			}
+			return true
+		}
+		return false
+	}
+	for i, pb := range l.header.Preds {
+		e := ph.Edges[i]
+		if l.blocks[pb] {
+			if !isInc(e, 0) {
+				return
+			}
+		} else if c, isC := constInt(e); !isC || c != 0 {
+			return
+		}
+	}
+	l.rangeOver = lc.Call.Args[0]
+	l.key = ph
+	l.classic = true
 }
 
 // loopOfBlock returns the innermost loop containing b (nil if none).
